@@ -403,6 +403,245 @@ theorem deliver_elected_votedFor (c : Config) (nd : Node) (src : Nat) (m : Msg) 
       · rw [hr] at hl; cases hl
       · simp [startElection] at hl
 
+/-- a RequestVote a handler emits is the start of an election by that node, right now -/
+theorem deliver_out_rv_full (c : Config) (nd : Node) (src : Nat) (m : Msg) (b1 b2 b3 : Bool)
+    (t cand li lt : Nat) (h : (deliver c nd src m b1 b2 b3).2 = some (.requestVote t cand li lt)) :
+    cand = nd.id ∧ t = (deliver c nd src m b1 b2 b3).1.term ∧
+    (deliver c nd src m b1 b2 b3).1.role = .candidate ∧
+    nd.term < (deliver c nd src m b1 b2 b3).1.term ∧ li = lastIdx nd.log ∧ lt = lastTerm nd.log := by
+  cases m with
+  | requestVote t' cand' li' lt' =>
+    simp only [deliver, handleRequestVote_eq] at h
+    split at h <;> simp at h
+  | requestVoteResp t' gr v => simp [deliver] at h
+  | preVote t' cand' li' lt' =>
+    simp only [deliver, handlePreVote] at h
+    split at h
+    · split at h <;> simp at h
+    · simp at h
+  | appendEntries t' l pi pt es lc =>
+    simp only [deliver, handleAppendEntries] at h
+    split at h
+    · split at h
+      · simp [aeAccept] at h
+      · simp at h
+    · simp at h
+  | appendEntriesResp t' sc f mi => simp [deliver] at h
+  | preVoteResp t' gr v =>
+    have heq : deliver c nd src (.preVoteResp t' gr v) b1 b2 b3 = handlePreVoteResp c nd src t' gr := rfl
+    rw [heq] at h ⊢
+    unfold handlePreVoteResp at h ⊢
+    by_cases h1 : nd.inPreVote = false
+    · rw [if_pos h1] at h; simp at h
+    · rw [if_neg h1] at h ⊢
+      by_cases h2 : t' > nd.term
+      · rw [if_pos h2] at h; simp at h
+      · rw [if_neg h2] at h ⊢
+        by_cases h3 : gr = true ∧ t' = nd.term
+        · rw [if_pos h3] at h ⊢
+          by_cases h4 : src ∈ nd.preVotes
+          · rw [if_pos h4] at h; simp at h
+          · rw [if_neg h4] at h ⊢
+            by_cases h5 : ({ nd with preVotes := nd.preVotes ++ [src] } : Node).preVotes.length ≥ c.quorum
+            · rw [if_pos h5] at h ⊢
+              simp only [startElection, Option.some.injEq, Msg.requestVote.injEq] at h ⊢
+              obtain ⟨ht, hc, hli, hlt⟩ := h
+              exact ⟨hc.symm, ht.symm, trivial, by omega, hli.symm, hlt.symm⟩
+            · rw [if_neg h5] at h; simp at h
+        · rw [if_neg h3] at h; simp at h
+  | timeoutNow t' l =>
+    have heq : deliver c nd src (.timeoutNow t' l) b1 b2 b3 = handleTimeoutNow nd src t' l := rfl
+    rw [heq] at h ⊢
+    unfold handleTimeoutNow at h ⊢
+    split at h
+    · simp at h
+    · rename_i h1; rw [if_neg h1]
+      split at h
+      · simp at h
+      · rename_i h2; rw [if_neg h2]
+        simp only [startElection, Option.some.injEq, Msg.requestVote.injEq] at h ⊢
+        obtain ⟨ht, hc, hli, hlt⟩ := h
+        exact ⟨hc.symm, ht.symm, trivial, by omega, hli.symm, hlt.symm⟩
+
+/-- how a node can come to record a (new) vote: it starts an election itself, or it grants a
+    RequestVote whose advertised log is at least as up to date as its own -/
+def VoteFact (s : Sys) (i : Nat) (nd nd' : Node) : Prop :=
+  ∀ cd, nd'.votedFor = some cd → ¬ (nd'.term = nd.term ∧ nd'.votedFor = nd.votedFor) →
+    nd'.log = nd.log ∧
+    ((cd = i ∧ nd'.role = .candidate ∧ nd.term < nd'.term) ∨
+     ((nd.term < nd'.term → nd'.role ≠ .candidate) ∧
+      ∃ src li lt, (src, i, Msg.requestVote nd'.term cd li lt) ∈ s.net ∧
+        (lt > lastTerm nd.log ∨ (lt = lastTerm nd.log ∧ nd.log.length ≤ li))))
+
+theorem stepDown_vote (nd : Node) (t : Nat) :
+    ((stepDown nd t).term = nd.term ∧ (stepDown nd t).votedFor = nd.votedFor) ∨
+    (stepDown nd t).votedFor = none := by
+  by_cases h : t > nd.term
+  · right; rw [stepDown_of_gt nd t h]
+  · left; rw [stepDown_of_le nd t h]; exact ⟨rfl, rfl⟩
+
+theorem stepDown_role_ne_cand (nd : Node) (t : Nat) (h : (stepDown nd t).role = .candidate) :
+    stepDown nd t = nd := by
+  by_cases hgt : t > nd.term
+  · rw [stepDown_of_gt nd t hgt] at h; cases h
+  · exact stepDown_of_le nd t hgt
+
+theorem deliver_vote_fact (c : Config) (nd : Node) (src : Nat) (m : Msg) (b1 b2 b3 : Bool) (cd : Nat)
+    (hv : (deliver c nd src m b1 b2 b3).1.votedFor = some cd)
+    (hne : ¬ ((deliver c nd src m b1 b2 b3).1.term = nd.term ∧
+              (deliver c nd src m b1 b2 b3).1.votedFor = nd.votedFor)) :
+    (deliver c nd src m b1 b2 b3).1.log = nd.log ∧
+    ((cd = nd.id ∧ (deliver c nd src m b1 b2 b3).1.role = .candidate ∧
+        nd.term < (deliver c nd src m b1 b2 b3).1.term) ∨
+     ((nd.term < (deliver c nd src m b1 b2 b3).1.term →
+        (deliver c nd src m b1 b2 b3).1.role ≠ .candidate) ∧
+      ∃ li lt, m = Msg.requestVote (deliver c nd src m b1 b2 b3).1.term cd li lt ∧
+        (lt > lastTerm nd.log ∨ (lt = lastTerm nd.log ∧ nd.log.length ≤ li)))) := by
+  cases m with
+  | requestVote t cand li lt =>
+    have heq : (deliver c nd src (.requestVote t cand li lt) b1 b2 b3).1
+        = (handleRequestVote c nd t cand li lt b1 b2).1 := rfl
+    rw [heq, handleRequestVote_eq] at hv hne ⊢
+    by_cases hc : t = (stepDown nd t).term ∧ canVote (stepDown nd t) cand = true ∧
+         voteLogOk c (stepDown nd t).log li lt b2 = true ∧ b1 = true
+    · rw [if_pos hc] at hv hne ⊢
+      simp only [Option.some.injEq] at hv
+      subst hv
+      refine ⟨by simp, Or.inr ⟨?_, li, lt, ?_, ?_⟩⟩
+      · -- a higher term makes the node a follower before it votes
+        intro hlt hrc
+        have hsd : stepDown nd t = nd := stepDown_role_ne_cand nd t hrc
+        have : (stepDown nd t).term = nd.term := by rw [hsd]
+        have h2 : nd.term < (stepDown nd t).term := hlt
+        omega
+      · show (Msg.requestVote t cand li lt) = Msg.requestVote (stepDown nd t).term cand li lt
+        rw [← hc.1]
+      · have hlo := hc.2.2.1
+        simp only [voteLogOk, stepDown_log, decide_eq_true_eq] at hlo
+        unfold lastIdx at hlo
+        rcases hlo with h | h
+        · rcases h with h | h
+          · exact Or.inl h
+          · exact Or.inr ⟨h.1, by omega⟩
+        · exact Or.inr ⟨h.1.1, by omega⟩
+    · rw [if_neg hc] at hv hne
+      rcases stepDown_vote nd t with h | h
+      · exact absurd h hne
+      · rw [h] at hv; cases hv
+  | requestVoteResp t gr v =>
+    exfalso
+    have htr := handleRequestVoteResp_trans c nd src t gr v
+    have heq : (deliver c nd src (.requestVoteResp t gr v) b1 b2 b3).1
+        = handleRequestVoteResp c nd src t gr := rfl
+    rw [heq] at hv hne
+    unfold handleRequestVoteResp at hv hne
+    by_cases h1 : nd.role ≠ .candidate
+    · rw [if_pos h1] at hne; exact hne ⟨rfl, rfl⟩
+    · rw [if_neg h1] at hv hne
+      by_cases h2 : t > nd.term
+      · rw [if_pos h2] at hv; cases hv
+      · rw [if_neg h2] at hv hne
+        by_cases h3 : gr = true ∧ t = nd.term
+        · rw [if_pos h3] at hne
+          by_cases h4 : src ∈ nd.votes
+          · rw [if_pos h4] at hne; exact hne ⟨rfl, rfl⟩
+          · rw [if_neg h4] at hne
+            by_cases h5 : ({ nd with votes := nd.votes ++ [src] } : Node).votes.length ≥ c.quorum
+            · rw [if_pos h5] at hne; exact hne ⟨rfl, rfl⟩
+            · rw [if_neg h5] at hne; exact hne ⟨rfl, rfl⟩
+        · rw [if_neg h3] at hne; exact hne ⟨rfl, rfl⟩
+  | preVote t cand li lt => exact absurd ⟨rfl, rfl⟩ hne
+  | preVoteResp t gr v =>
+    have heq : (deliver c nd src (.preVoteResp t gr v) b1 b2 b3).1
+        = (handlePreVoteResp c nd src t gr).1 := rfl
+    rw [heq] at hv hne ⊢
+    unfold handlePreVoteResp at hv hne ⊢
+    by_cases h1 : nd.inPreVote = false
+    · rw [if_pos h1] at hne; exact absurd ⟨rfl, rfl⟩ hne
+    · rw [if_neg h1] at hv hne ⊢
+      by_cases h2 : t > nd.term
+      · rw [if_pos h2] at hv; cases hv
+      · rw [if_neg h2] at hv hne ⊢
+        by_cases h3 : gr = true ∧ t = nd.term
+        · rw [if_pos h3] at hv hne ⊢
+          by_cases h4 : src ∈ nd.preVotes
+          · rw [if_pos h4] at hne; exact absurd ⟨rfl, rfl⟩ hne
+          · rw [if_neg h4] at hv hne ⊢
+            by_cases h5 : ({ nd with preVotes := nd.preVotes ++ [src] } : Node).preVotes.length ≥ c.quorum
+            · rw [if_pos h5] at hv ⊢
+              simp only [startElection, Option.some.injEq] at hv
+              exact ⟨rfl, Or.inl ⟨hv.symm, rfl, by simp [startElection]⟩⟩
+            · rw [if_neg h5] at hne; exact absurd ⟨rfl, rfl⟩ hne
+        · rw [if_neg h3] at hne; exact absurd ⟨rfl, rfl⟩ hne
+  | appendEntries t l pi pt es lc =>
+    exfalso
+    have heq : (deliver c nd src (.appendEntries t l pi pt es lc) b1 b2 b3).1
+        = (handleAppendEntries nd t l pi pt es lc).1 := rfl
+    rw [heq] at hv hne
+    unfold handleAppendEntries at hv hne
+    by_cases h1 : t = (stepDown nd t).term
+    · rw [if_pos h1] at hv hne
+      by_cases h2 : aeLogOk (stepDown nd t).log pi pt = true
+      · simp only [h2, if_true, aeAccept] at hv hne
+        rcases stepDown_vote nd t with h | h
+        · exact hne h
+        · rw [h] at hv; cases hv
+      · simp only [h2, Bool.false_eq_true, if_false] at hv hne
+        rcases stepDown_vote nd t with h | h
+        · exact hne h
+        · rw [h] at hv; cases hv
+    · rw [if_neg h1] at hv hne
+      rcases stepDown_vote nd t with h | h
+      · exact hne h
+      · rw [h] at hv; cases hv
+  | appendEntriesResp t sc f mi =>
+    exfalso
+    have heq : (deliver c nd src (.appendEntriesResp t sc f mi) b1 b2 b3).1
+        = handleAppendEntriesResp c nd src t sc mi := rfl
+    rw [heq] at hv hne
+    unfold handleAppendEntriesResp at hv hne
+    by_cases h1 : nd.role ≠ .leader
+    · rw [if_pos h1] at hne; exact hne ⟨rfl, rfl⟩
+    · rw [if_neg h1] at hv hne
+      by_cases h2 : t > nd.term
+      · rw [if_pos h2] at hv; cases hv
+      · rw [if_neg h2] at hv hne
+        by_cases h3 : t < nd.term
+        · rw [if_pos h3] at hne; exact hne ⟨rfl, rfl⟩
+        · rw [if_neg h3] at hv hne
+          by_cases h4 : nd.hasLeaderState = false
+          · rw [if_pos h4] at hne; exact hne ⟨rfl, rfl⟩
+          · rw [if_neg h4] at hv hne
+            by_cases h5 : sc = true
+            · rw [if_pos h5] at hne
+              obtain ⟨_, _, e1, _, _⟩ := tryAdvanceCommit_fields c
+                { nd with nextIdx := alSet nd.nextIdx src (mi + 1), matchIdx := alSet nd.matchIdx src mi,
+                          backoff := alRemove nd.backoff src }
+              obtain ⟨_, e2, e3, _, _⟩ := tryAdvanceCommit_fields c
+                { nd with nextIdx := alSet nd.nextIdx src (mi + 1), matchIdx := alSet nd.matchIdx src mi,
+                          backoff := alRemove nd.backoff src }
+              exact hne ⟨e2, e3⟩
+            · rw [if_neg h5] at hne; exact hne ⟨rfl, rfl⟩
+  | timeoutNow t l =>
+    have heq : (deliver c nd src (.timeoutNow t l) b1 b2 b3).1
+        = (handleTimeoutNow nd src t l).1 := rfl
+    rw [heq] at hv hne ⊢
+    unfold handleTimeoutNow at hv hne ⊢
+    split at hne
+    · exact absurd ⟨rfl, rfl⟩ hne
+    · rename_i h1; rw [if_neg h1] at hv ⊢
+      split at hne
+      · exact absurd ⟨rfl, rfl⟩ hne
+      · rename_i h2; rw [if_neg h2] at hv ⊢
+        simp only [startElection, Option.some.injEq] at hv
+        exact ⟨rfl, Or.inl ⟨hv.symm, rfl, by simp [startElection]⟩⟩
+
+/-- every RequestVote a step adds announces an election the node starts in this very step -/
+def MsgsR (i : Nat) (nd nd' : Node) (msgs : List (Nat × Nat × Msg)) : Prop :=
+  ∀ (a b : Nat) (m : Msg), (a, b, m) ∈ msgs → ∀ t cand li lt, m = Msg.requestVote t cand li lt →
+    cand = i ∧ t = nd'.term ∧ nd'.role = .candidate ∧ nd.term < nd'.term ∧
+    li = lastIdx nd.log ∧ lt = lastTerm nd.log
+
 /-- **Case analysis of one system step**, shared by every invariant layer: a step either
     leaves the state alone, or replaces one node (with the facts `NodeTrans`, `Kind`, `MsgsC`,
     `NoAE` about the replacement), or adds one AppendEntries built by a leader. -/
@@ -410,7 +649,8 @@ theorem sysStep_cases (c : Config) (s : Sys) (st : Step) (hI : Inv c s) (P : Sys
     (hsame : P s)
     (hset : ∀ (i : Nat) (nd nd' : Node) (g : Option Nat) (msgs : List (Nat × Nat × Msg)),
       s.nodes[i]? = some nd → NodeTrans c nd nd' g → Kind c s i nd nd' → MsgsC s i nd nd' msgs →
-      NoAE msgs → (nd.role = .candidate → nd'.role = .leader → nd'.votedFor = nd.votedFor) →
+      NoAE msgs → MsgsR i nd nd' msgs → VoteFact s i nd nd' →
+      (nd.role = .candidate → nd'.role = .leader → nd'.votedFor = nd.votedFor) →
       sysStep c s st = setNode s i nd' nd msgs → P (setNode s i nd' nd msgs))
     (hrep : ∀ (i j : Nat) (nd : Node) (m : Msg), j ≠ i → s.nodes[i]? = some nd →
       appendEntriesFor nd j = some m → P { s with net := s.net ++ [(i, j, m)] }) :
@@ -431,6 +671,15 @@ theorem sysStep_cases (c : Config) (s : Sys) (st : Step) (hI : Inv c s) (P : Sys
         · intro a b m h T sc f mi e
           rw [(mem_broadcast c i _ a b m h).2] at e; simp [startElection] at e
       · exact noAE_broadcast c i _ (by intro _ _ _ _ _ _ h; simp [startElection] at h)
+      · intro a b m h t cand li lt e
+        rw [(mem_broadcast c i _ a b m h).2] at e
+        simp only [startElection, Msg.requestVote.injEq] at e
+        obtain ⟨ht, hc, hli, hlt⟩ := e
+        exact ⟨by rw [← hc]; exact hI.ids i nd hnd, by simp [startElection, ← ht], rfl,
+          by simp [startElection], hli.symm, hlt.symm⟩
+      · intro cd hv _
+        simp only [startElection, Option.some.injEq] at hv
+        exact ⟨rfl, Or.inl ⟨by rw [← hv]; exact hI.ids i nd hnd, rfl, by simp [startElection]⟩⟩
       · intro _ h; simp [startElection] at h
       · exact heq
   | preVote i =>
@@ -450,6 +699,9 @@ theorem sysStep_cases (c : Config) (s : Sys) (st : Step) (hI : Inv c s) (P : Sys
         · intro a b m h T sc f mi e
           rw [(mem_broadcast c i _ a b m h).2] at e; simp [startPreVote] at e
       · exact noAE_broadcast c i _ (by intro _ _ _ _ _ _ h; simp [startPreVote] at h)
+      · intro a b m h t cand li lt e
+        rw [(mem_broadcast c i _ a b m h).2] at e; simp [startPreVote] at e
+      · intro cd _ hne; exact absurd ⟨rfl, rfl⟩ hne
       · intro hr h
         have : nd.role = .leader := h
         rw [hr] at this; cases this
@@ -512,7 +764,39 @@ theorem sysStep_cases (c : Config) (s : Sys) (st : Step) (hI : Inv c s) (P : Sys
               subst hmin
               refine ⟨src, l, pi, pt, es, lc, ?_, hok, hlog, hmi'⟩
               rw [← hT, ← htT]; exact hmem
-        apply hset dst nd _ _ _ hnd htr _ hmsgs (noAE_route c nd src dst m h1 h2 h3)
+        have hmsgsR : MsgsR dst nd (deliver c nd src m h1 h2 h3).1
+            (route c dst src (deliver c nd src m h1 h2 h3).2) := by
+          intro a b m' hm' t cand li lt e
+          cases hout : (deliver c nd src m h1 h2 h3).2 with
+          | none => rw [hout] at hm'; simp [route] at hm'
+          | some out =>
+            rw [hout] at hm'
+            have hcases : (∃ t cand li lt, out = .requestVote t cand li lt) ∨
+                (∀ t cand li lt, out ≠ .requestVote t cand li lt) := by
+              cases out <;> simp
+            rcases hcases with ⟨t0, cand0, li0, lt0, ho⟩ | hno
+            · subst ho
+              simp only [route] at hm'
+              obtain ⟨_, hm2⟩ := mem_broadcast c dst _ a b m' hm'
+              rw [hm2] at e
+              simp only [Msg.requestVote.injEq] at e
+              obtain ⟨rfl, rfl, rfl, rfl⟩ := e
+              obtain ⟨p1, p2, p3, p4, p5, p6⟩ := deliver_out_rv_full c nd src m h1 h2 h3 _ _ _ _ hout
+              exact ⟨by rw [p1, hid], p2, p3, p4, p5, p6⟩
+            · have hr : route c dst src (some out) = [(dst, src, out)] := by
+                cases out <;> first | rfl | (exfalso; exact hno _ _ _ _ rfl)
+              rw [hr] at hm'
+              simp only [List.mem_singleton, Prod.mk.injEq] at hm'
+              rw [hm'.2.2] at e
+              exact absurd e (hno t cand li lt)
+        have hvote : VoteFact s dst nd (deliver c nd src m h1 h2 h3).1 := by
+          intro cd hv hne
+          obtain ⟨hlg, hq⟩ := deliver_vote_fact c nd src m h1 h2 h3 cd hv hne
+          refine ⟨hlg, ?_⟩
+          rcases hq with ⟨a, b, d⟩ | ⟨a, li, lt, hm, hup⟩
+          · exact Or.inl ⟨by rw [a, hid], b, d⟩
+          · exact Or.inr ⟨a, src, li, lt, by rw [← hm]; exact hmem, hup⟩
+        apply hset dst nd _ _ _ hnd htr _ hmsgs (noAE_route c nd src dst m h1 h2 h3) hmsgsR hvote
           (fun hr hl => deliver_elected_votedFor c nd src m h1 h2 h3 hr hl) heq
         by_cases hae : ∃ t l pi pt es lc, m = Msg.appendEntries t l pi pt es lc
         · obtain ⟨t, l, pi, pt, es, lc, rfl⟩ := hae
@@ -539,9 +823,12 @@ theorem sysStep_cases (c : Config) (s : Sys) (st : Step) (hI : Inv c s) (P : Sys
       · rw [h] at heq ⊢
         exact hset i nd nd none [] hnd (NodeTrans.refl c nd none)
           (kind_of_logsame c s i nd nd none (NodeTrans.refl c nd none) rfl
-            (fun hl => Or.inl ⟨hl, Or.inl rfl⟩)) (hm0 nd) noAE_nil (fun _ _ => rfl) heq
+            (fun hl => Or.inl ⟨hl, Or.inl rfl⟩)) (hm0 nd) noAE_nil
+          (by intro a b m h; simp at h) (by intro cd _ hne; exact absurd ⟨rfl, rfl⟩ hne)
+          (fun _ _ => rfl) heq
       · rw [h] at heq ⊢
         refine hset i nd _ none [] hnd ?_ (Or.inr (Or.inr (Or.inl ⟨hr, p, rfl⟩))) (hm0 _) noAE_nil
+          (by intro a b m h; simp at h) (by intro cd _ hne; exact absurd ⟨rfl, rfl⟩ hne)
           (fun _ _ => rfl) heq
         have := propose_trans c nd p a none
         rw [h] at this; exact this
@@ -569,6 +856,8 @@ theorem sysStep_cases (c : Config) (s : Sys) (st : Step) (hI : Inv c s) (P : Sys
       · exact kind_of_logsame c s i nd _ none htr rfl (fun h => by simp [crashRestart] at h)
       · intro a b m h; simp at h
       · exact noAE_nil
+      · intro a b m h; simp at h
+      · intro cd _ hne; exact absurd ⟨rfl, rfl⟩ hne
       · intro _ h; simp [crashRestart] at h
       · exact heq
 
@@ -578,7 +867,7 @@ theorem einv_step (c : Config) (s : Sys) (st : Step) (hI : Inv c s) (hL : LMInv 
   have hL' := lm_step c s st hI hL
   apply sysStep_cases c s st hI (fun s' => Inv c s' → LMInv c s' → EInv c s') _ _ _ hI' hL'
   · intro _ _; exact hE
-  · intro i nd nd' g msgs hnd htr hk _ _ hvf _ hI2 hL2
+  · intro i nd nd' g msgs hnd htr hk _ _ _ _ hvf _ hI2 hL2
     exact einv_setNode c s i nd nd' g msgs hL hC hE hI2 hL2 hnd htr hk hvf
   · intro i j nd m _ _ _ _ _
     refine ⟨?_, hE.candFresh, hE.vlogCanon, hE.ghostToVoteLog, hE.flagTrue, hE.electedVoters⟩
